@@ -295,3 +295,16 @@ def reader_stress_texts(rng, tier):
             lines, _ = render_v3000(M, rng, opts={"defaults": True} if rng.random() < 0.5 else None)
         out.append((f"t{i}", "\n".join(lines)))
     return out
+
+
+def floats_from_lines(lines):
+    """literal -> repr(float(literal)) for every blank-separated token of a V3000 text (continued lines joined)"""
+    fl = {}
+    for l in "\n".join(lines).replace("-\nM  V30 ", "").split("\n"):
+        for t in l.split():
+            if t not in fl:
+                try:
+                    fl[t] = repr(float(t))
+                except ValueError:
+                    pass
+    return fl
